@@ -196,7 +196,7 @@ struct OptWorld {
     static void obs_opt(Obs& r, char const* has, char const* value, X const& o)
     {
         r.b(has, o.has_value());
-        if (o.has_value()) { r.i(value, enc(*o)); }
+        r.i(value, o.has_value() ? enc(*o) : kAbsent);
     }
 
     void construct(int form, int v)
@@ -238,10 +238,8 @@ struct OptWorld {
         O const& o = *x;
         r.b("has_value", o.has_value());
         r.b("operator bool", static_cast<bool>(o));
-        if (o.has_value()) {
-            r.i("value", enc(*o));
-            r.b("operator->==&*", o.operator->() == &*o);
-        }
+        r.i("value", o.has_value() ? enc(*o) : kAbsent);
+        r.b("operator->==&*", o.has_value() ? o.operator->() == &*o : true);
     }
 
     void apply(Op op, Args const& a, Obs& r)
@@ -442,18 +440,24 @@ struct OptWorld {
                 r.i("value()", got);
             }
             break;
-        case oDeref:
-            if (o.has_value()) {
-                O const& co = o;
-                r.i("*lvalue", enc(*o));
-                r.i("*const-lvalue", enc(*co));
+        case oDeref: {
+            bool const h = o.has_value();
+            O const& co  = o;
+            r.i("*lvalue", h ? enc(*o) : kAbsent);
+            r.i("*const-lvalue", h ? enc(*co) : kAbsent);
+            if (h) {
                 T&& rr        = *static_cast<O&&>(o);
                 T const&& crr = *static_cast<O const&&>(co);
                 r.b("*rvalue-is-contained", &rr == &*o);
                 r.b("*const-rvalue-is-contained", &crr == &*o);
                 r.b("operator->const==&*", co.operator->() == &*co);
+            } else {
+                r.b("*rvalue-is-contained", true);
+                r.b("*const-rvalue-is-contained", true);
+                r.b("operator->const==&*", true);
             }
             break;
+        }
         case oRelOpt: {
             O const other = mk(a.y);
             rel6(r, static_cast<O const&>(o), other);
